@@ -42,10 +42,12 @@ structure Config where
   clone : ClonePolicy
   parser : ParserPolicy
   ns : NamespacePolicy
+  /-- `resolve_name` treats a `TypeError` of `find_name` ("… not a container") like `NotFound` (D11 fixed) -/
+  skipTE : Bool := true
   deriving DecidableEq, Repr
 
 /-- the configuration the property theorems are stated for -/
-def Config.fixed : Config := ⟨.deep, .perClass, .perCall⟩
+def Config.fixed : Config := ⟨.deep, .perClass, .perCall, true⟩
 
 /-! ## values, referents, containers, heap -/
 
@@ -331,19 +333,22 @@ def findName (vw : View) : List String → List String → PyM Found
 
 /-- `resolve_name(package, name)` with a single container in `parent_iter()`:
 try `package + [name]`, then shorter and shorter package prefixes; `KeyError` if nothing matches -/
-def resolveLoop (vw : View) (q : List String) (name : String) : List String → Nat → PyM Found
+def resolveLoop (skipTE : Bool) (vw : View) (q : List String) (name : String) : List String → Nat → PyM Found
   | _, 0 => .ok .notFound
   | target, fuel + 1 =>
     match findName vw q (target ++ [name]) with
-    | .error e => .error e
-    | .ok .notFound => if target.isEmpty then .ok .notFound else resolveLoop vw q name target.dropLast fuel
+    | .error e =>
+      if skipTE && e == .typeError then
+        (if target.isEmpty then .ok .notFound else resolveLoop skipTE vw q name target.dropLast fuel)
+      else .error e
+    | .ok .notFound => if target.isEmpty then .ok .notFound else resolveLoop skipTE vw q name target.dropLast fuel
     | .ok f => .ok f
 
-def resolveName (vw : View) (q : List String) (pkg : Option String) (name : String) : PyM Found :=
+def resolveName (skipTE : Bool) (vw : View) (q : List String) (pkg : Option String) (name : String) : PyM Found :=
   let target := match pkg with
     | none => []
     | some p => if p.isEmpty then [] else identFindall p
-  match resolveLoop vw q name target (target.length + 1) with
+  match resolveLoop skipTE vw q name target (target.length + 1) with
   | .error e => .error e
   | .ok .notFound => .error .keyError
   | .ok f => .ok f
@@ -379,9 +384,9 @@ def addRV : RV → RV → PyM RV
 
 /-- `e.k` on an evaluated member.  Interpreter: `member_dot` (evaluation.py:2207-2289); compiled:
 `member.get('k')` = `NameContainer.get` / `MapType.get` / `AttributeError`. -/
-def memberDot (vw : View) : RV → String → PyM RV
+def memberDot (skipTE : Bool) (vw : View) : RV → String → PyM RV
   | .cont q, k =>
-    match resolveName vw q none k with     -- I: `k in member; member[k].value`; C: `resolve_name(None, k).value` — the same lookup
+    match resolveName skipTE vw q none k with     -- I: `k in member; member[k].value`; C: `resolve_name(None, k).value` — the same lookup
     | .error e => .error e
     | .ok f => .ok f.value
   | .v (.map m), k =>
@@ -395,26 +400,26 @@ inductive Kind | I | C
 
 /-- evaluation of the fragment by either runner.  Any raised exception ends the evaluation (there is
 no `||`/`&&`/`?:` in the fragment), and the API reports it as an error. -/
-def evalExpr (kind : Kind) (vw : View) (pkg : Option String) : Expr → PyM RV
+def evalExpr (skipTE : Bool) (kind : Kind) (vw : View) (pkg : Option String) : Expr → PyM RV
   | .lit n => .ok (.v (.int n))
   | .ident x =>
-    match resolveName vw [] pkg x with
+    match resolveName skipTE vw [] pkg x with
     | .error e => .error e
     | .ok f => match kind with
       | .I => .ok f.value               -- `Activation.resolve_variable`
       | .C => getattrValue vw f         -- `Activation.__getattr__`
   | .dotIdent x =>
-    match resolveName vw [] pkg x with  -- both runners: `resolve_variable` (the root-scope flag is ignored)
+    match resolveName skipTE vw [] pkg x with  -- both runners: `resolve_variable` (the root-scope flag is ignored)
     | .error e => .error e
     | .ok f => .ok f.value
   | .dot e k =>
-    match evalExpr kind vw pkg e with
+    match evalExpr skipTE kind vw pkg e with
     | .error e => .error e
-    | .ok m => memberDot vw m k
+    | .ok m => memberDot skipTE vw m k
   | .add a b =>
-    match evalExpr kind vw pkg a with
+    match evalExpr skipTE kind vw pkg a with
     | .error e => .error e
-    | .ok x => match evalExpr kind vw pkg b with
+    | .ok x => match evalExpr skipTE kind vw pkg b with
       | .error e => .error e
       | .ok y => addRV x y
 
@@ -505,9 +510,9 @@ def cloneAndLoad (cfg : Config) (h : Heap) (base : Id) (b : Bindings) : PyM (Hea
     | .error e => .error e
     | .ok h3 => .ok (h3, root)
 
-def finish (kind : Kind) (h : Heap) (act : Id) (pkg : Option String) (e : Expr) : Obs :=
+def finish (skipTE : Bool) (kind : Kind) (h : Heap) (act : Id) (pkg : Option String) (e : Expr) : Obs :=
   let vw := viewAt h act
-  match evalExpr kind vw pkg e with
+  match evalExpr skipTE kind vw pkg e with
   | .error _ => .err                 -- I: error value raised by `Evaluator.evaluate`; C: `result()` / blanket handler
   | .ok rv => .value (rv.render vw)
 
@@ -565,19 +570,19 @@ def step (cfg : Config) (w : World) : Op → World × Obs
         match newActivation w.heap p.decls with
         | .error x => (w, setupExc x)
         | .ok (h1, base) =>
-          if b.isEmpty then ({ w with heap := h1 }, finish .I h1 base p.pkg p.expr)
+          if b.isEmpty then ({ w with heap := h1 }, finish cfg.skipTE .I h1 base p.pkg p.expr)
           else match cloneAndLoad cfg h1 base b with
             | .error x => ({ w with heap := h1 }, setupExc x)
-            | .ok (h2, act) => ({ w with heap := h2 }, finish .I h2 act p.pkg p.expr)
+            | .ok (h2, act) => ({ w with heap := h2 }, finish cfg.skipTE .I h2 act p.pkg p.expr)
       | .C =>
         -- Transpiler.evaluate
         let g := match cfg.ns with
           | .shared => scratchNames.foldl (fun g n => if g.contains n then g else g ++ [n]) w.globals
           | .perCall => w.globals
-        if b.isEmpty then ({ w with globals := g }, finish .C w.heap p.base p.pkg p.expr)
+        if b.isEmpty then ({ w with globals := g }, finish cfg.skipTE .C w.heap p.base p.pkg p.expr)
         else match cloneAndLoad cfg w.heap p.base b with
           | .error x => (w, setupExc x)
-          | .ok (h2, act) => ({ w with heap := h2, globals := g }, finish .C h2 act p.pkg p.expr)
+          | .ok (h2, act) => ({ w with heap := h2, globals := g }, finish cfg.skipTE .C h2 act p.pkg p.expr)
 
 def run (cfg : Config) (w : World) : List Op → World
   | [] => w
